@@ -62,7 +62,7 @@ def ctype_of(name):
     if name == "bool":
         return None
     m = re.fullmatch(r"(u?)int(\d+)_t", name)
-    if m and int(m.group(2)) in (8, 16, 32, 64):
+    if m and int(m.group(2)) in (1, 2, 4, 8, 16, 32, 64):  # the grammar's BIT_WIDTH set; rank = width, all below 32 promote to int
         return (m.group(1) != "u", int(m.group(2)))
     m = re.fullmatch(r"size(\d+)([us])_t", name)
     if m and int(m.group(1)) in (1, 2, 4, 8):
